@@ -31,6 +31,10 @@ var gluePairs = [][2]uint64{
 	{0, 0}, {0, 1}, {^uint64(0), ^uint64(0)}, {^uint64(0), 0}, {^uint64(0), 1}, {1 << 63, 0}, {1 << 63, 1}, {1<<63 - 1, ^uint64(0)},
 	{1, 0}, {0, ^uint64(0)}, {0, 1 << 63}, {0, 1<<63 - 1}, {^uint64(0), 1 << 63}, {^uint64(0), 1<<63 - 1}, {^uint64(0) - 1, ^uint64(0)},
 	{0, 9}, {0, 10}, {0, 99}, {0, 100},
+	// hexadecimal renderings that start with the digit b / B (one padding zero makes them look like a binary prefix),
+	// contain the digit e, or look like another base's prefix
+	{0, 0xb}, {0, 0xb1}, {0, 0xbe}, {0, 0xb0}, {0, 0xe}, {0, 0x1e}, {0, 0xe1}, {0, 16}, {0, 31}, {0, 8},
+	{^uint64(0), ^uint64(0) - 0xb1 + 1}, {^uint64(0), ^uint64(0) - 0xb + 1}, {0xb, 0}, {0xb100000000000000, 1},
 }
 
 var fmtVerbs = []string{
